@@ -6,17 +6,29 @@ Designs (TLC, all interleavings within the bounds, VIEW without the history vari
                                             termination of the eviction loop (liveness; size >= 1)
   KeyFetchPool.tla    keyring.go            explicit worker pool (job queue of capacity Q filled by the caller, then W
                                             workers): result = union of the per-server successes, deadlock freedom
-                                            and termination for Q = #servers; Q < #servers deadlocks (sanity cfg)
+                                            and termination for Q = #servers; Q < #servers deadlocks (sanity cfg);
+                                            the caller's context: live / cancelled before / past its deadline /
+                                            cancelled at any moment of the call - the call still returns (a pool that
+                                            stops handing out work without closing the queue deadlocks: sanity cfg)
+  KeyFetchBatches.tla keyring.go            several overlapping batches on one fetcher, callers that go away, servers
+                                            with a behaviour of their own (answers / notary only / down / transient
+                                            fault): what a batch returns depends on its own context and the servers
+                                            only (sharing the outcome of an in-flight fetch refuted: sanity cfg)
   TransportCache.tla  fclient/client.go     one transport per TLS name, every caller of a name is handed the cached one
                                             (split lookup/create refuted in TransportCache_split.cfg), never
-                                            half-initialised, bounded retries
+                                            half-initialised, bounded retries; the reaper between ANY two steps never
+                                            meets a transport without its lastUsed stamp (stamping after the critical
+                                            section refuted in TransportCache_touchoutside.cfg)
   LazyID.tla          eventV2.go            NoDataRace with an explicit happens-before relation (the design with
                                             an atomic / eager cache holds; the code as it is does not)
 spec -> code (deterministic, -race build): TLC behaviours of the *_gen wrappers are replayed step by step against
   the real DNS cache (scripted resolver + dial control as scheduler gates), the real DirectKeyFetcher (gated
   KeyClient, completion order from TLC; plus batches of 1..130 distinct servers around the 64-worker limit with an
-  instant scripted client: result and termination) and the real federation round tripper (gated resolver underneath the
-  transports, reaper called directly); after every step the real maps are compared with the model.
+  instant scripted client: result and termination; the same sizes and the TLC schedules under cancelled / expired
+  contexts, and TLC schedules of overlapping batches, one record at a time with "every goroutine is parked" as the
+  deadlock test: c19batches) and the real federation round tripper (gated resolver underneath the transports; runs of
+  consecutive critical sections - reaper passes around a getTransport - queued on the real transports mutex and
+  handed over without a gap); after every step the real maps are compared with the model.
 stress (sampled, -race build): k goroutines on the read-only accessors of ONE freshly parsed event (v10, v12), on
   KeyRing.VerifyJSONs over overlapping servers, on one DNS cache and on one transport cache; results must equal
   the sequential evaluation.  A race-detector report (GORACE halt_on_error=1 exitcode=66) is a violation.
@@ -169,6 +181,18 @@ def _dedupe(records):
     return out
 
 
+def _ctx_record(r):
+    """A KeyFetchPool_gen record (one batch, context mode + cancel step) in the vocabulary of c19batches."""
+    steps = []
+    if r["mode"] in ("before", "deadline"):
+        steps.append({"b": "b1", "s": "", "stage": "cancel", "o": "cancel" if r["mode"] == "before" else "deadline"})
+    steps.append({"b": "b1", "s": "", "stage": "start", "o": ""})
+    for s in r["steps"]:
+        steps.append({"b": "b1", "s": s["s"], "stage": s["stage"], "o": "cancel" if s["stage"] == "cancel" else s["o"]})
+    return {"req": {"b1": r["servers"]}, "steps": steps, "out": {"b1": r["succ"]}, "local": r["local"],
+            "keyids": r["keyids"], "mode": r["mode"]}
+
+
 def run(ctx):
     ctx.repro_attempts = 6   # order- and schedule-dependent misbehaviour is retried in fresh processes
     quick = ctx.tier == "quick"
@@ -177,6 +201,8 @@ def run(ctx):
         "DNS cache size >= 1 (with size 0 the eviction loop spins while holding the mutex: DNSCache_size0.cfg refutes termination, as predicted; not exercised against the code)",
         "strictly increasing clock readings (expiry instants are distinct ranks in the model; a replay in which two real entries carry equal expiry instants is skipped)",
         "time is modelled by the environment steps Expire / Age, realised by rewriting entry.expires / lastUsed under the component's own mutex (no clock seam in the library)",
+        "a KeyClient honours the caller's context (a call under a context that is done fails with its error at once); the 15 s per-request timeout the library derives from it never fires in a replay",
+        "the transports mutex is used as a scheduler gate (held by the replay while the critical sections of the schedule queue up on it, then handed over in starvation mode): the order of the critical sections is the queue order, the hand-over without a gap is best effort and reported per chain in the coverage classes",
         "the yield points of the code are the resolver call, the dial and the KeyClient calls; interleavings inside the run between two yield points (dial failure -> delete -> re-lookup; resolver answer -> L2) are model-checked but not forced on the code: they are left to the race detector on randomised schedules",
         "linearisability is stated per critical section: a lookup is Read at L1 (hit) or Read at L1 + Store at L2 (miss); two concurrent misses on one host both resolve, which equals a sequential execution with an expiry between the two calls",
     ]
@@ -189,18 +215,29 @@ def run(ctx):
     jobs += [(lambda c=c: ctx.tlc("DNSCache", c, workers=w)) for c in dns_cfgs + dns_live + ["DNSCache_dur0.cfg"]]
     jobs += [lambda: _expect_violation(ctx, "DNSCache", "DNSCache_size0.cfg", "EveryCallReturns")]
     n_dns = len(jobs)
-    jobs += [lambda: ctx.tlc("KeyFetchPool", "KeyFetchPool_quick.cfg", coverage=True, workers=w),
-             lambda: ctx.tlc("KeyFetchPool", "KeyFetchPool_fewworkers.cfg", workers=w),   # W < #servers, Q = #servers (beyond 64 servers)
+    jobs += [# every context mode (live, cancelled before, past its deadline, cancelled at any moment): W < #servers, Q = #servers
+             lambda: ctx.tlc("KeyFetchPool", "KeyFetchPool_ctx.cfg", coverage=True, workers=w),
+             lambda: ctx.tlc("KeyFetchPool", "KeyFetchPool_quick.cfg", workers=w),
              # fill before start needs Q >= #servers
-             lambda: _expect_violation(ctx, "KeyFetchPool", "KeyFetchPool_smallqueue.cfg", "Deadlock")]
+             lambda: _expect_violation(ctx, "KeyFetchPool", "KeyFetchPool_smallqueue.cfg", "Deadlock"),
+             # a pool that stops handing out servers once the context is done, without closing the queue
+             lambda: _expect_violation(ctx, "KeyFetchPool", "KeyFetchPool_stopondone.cfg", "Deadlock"),
+             # overlapping batches on one fetcher; sharing the outcome of an in-flight fetch between callers
+             lambda: ctx.tlc("KeyFetchBatches", "KeyFetchBatches_quick.cfg", coverage=True, workers=w),
+             lambda: _expect_violation(ctx, "KeyFetchBatches", "KeyFetchBatches_coalesce.cfg", "LiveCallerGetsWhatTheServersAnswer")]
     if not quick:
         jobs += [lambda: ctx.tlc("KeyFetchPool", "KeyFetchPool_bigqueue.cfg", workers=w),     # Q > #servers, W = 1
-                 lambda: ctx.tlc("KeyFetchPool", "KeyFetchPool_startfirst.cfg", workers=w)]   # workers first, Q = 1
+                 lambda: ctx.tlc("KeyFetchPool", "KeyFetchPool_startfirst.cfg", workers=w),   # workers first, Q = 1
+                 lambda: ctx.tlc("KeyFetchPool", "KeyFetchPool_fewworkers.cfg", workers=w),
+                 lambda: ctx.tlc("KeyFetchBatches", "KeyFetchBatches_all4.cfg", workers=w),
+                 lambda: ctx.tlc("KeyFetchBatches", "KeyFetchBatches_thorough.cfg", workers=w)]   # three batches
     n_keys = len(jobs)
     jobs += [lambda: ctx.tlc("TransportCache", "TransportCache_quick.cfg", coverage=True, workers=w),
              lambda: ctx.tlc("TransportCache", "TransportCache_live.cfg", workers=w),
              # lookup and create as two critical sections without a second look: callers of one name get different transports
              lambda: _expect_violation(ctx, "TransportCache", "TransportCache_split.cfg", "CallersShareTheCachedTransport"),
+             # lastUsed stamped after the critical section: insert ; Reaper ; Touch
+             lambda: _expect_violation(ctx, "TransportCache", "TransportCache_touchoutside.cfg", "ReaperNeverMeetsAnUnstampedTransport"),
              lambda: ctx.tlc("LazyID", "LazyID_atomic.cfg", workers=w),
              lambda: _expect_violation(ctx, "LazyID", "LazyID_none.cfg", "NoDataRace")]
     if not quick:
@@ -209,11 +246,15 @@ def run(ctx):
     res = _par(ctx, jobs)
     _coverage_ok(ctx, res[0], "DNSCache", ["Call", "L1Retry", "ResolveOk", "ResolveFail", "L2Lock", "L2Evict", "L2Insert",
                                            "DialOk", "DialFail", "DelRetry", "Expire", "Done"])
-    _coverage_ok(ctx, res[n_dns], "KeyFetchPool", ["Take", "Direct", "Notary", "Merge", "Return", "Send", "Close", "StartWorkers"])
+    _coverage_ok(ctx, res[n_dns], "KeyFetchPool", ["Take", "Direct", "Notary", "Merge", "Return", "Send", "Close", "StartWorkers", "Cancel"])
+    _coverage_ok(ctx, res[n_dns + 4], "KeyFetchBatches", ["Start", "Cancel", "Direct", "Notary", "Merge", "Return"])
     _coverage_ok(ctx, res[n_keys], "TransportCache", ["Call", "GetAgain", "SendOk", "SendFail", "Reaper", "Age"])
     ctx.notes["predicted_by_model"] = ("LazyID with Sync=none (the code as it is) violates NoDataRace; "
                                        "DNSCache with Size=0 violates EveryCallReturns; KeyFetchPool with a job queue smaller "
-                                       "than the number of servers, filled before the workers start, deadlocks")
+                                       "than the number of servers, filled before the workers start, deadlocks; so does a pool that stops handing "
+                                       "out servers when the context is done without closing the queue; sharing the outcome of an "
+                                       "in-flight fetch between overlapping batches hands a live caller the failure of one that went "
+                                       "away; stamping lastUsed after the critical section lets the reaper meet an unstamped transport")
 
     # ---- 2. schedule replay (deterministic) -------------------------------------------------------------
     ctx.harness_build(race=True, pkg=PKG)   # once per run
@@ -238,9 +279,23 @@ def run(ctx):
     dns = _dedupe(dns)
     _replay(ctx, "c19dns", dns, "DNS cache")
 
-    keys = ctx.tlc("KeyFetchPool_gen", "KeyFetchPool_gen_quick.cfg").records
-    keys += ctx.tlc("KeyFetchPool_gen", "KeyFetchPool_gen_quick3.cfg" if quick else "KeyFetchPool_gen_thorough.cfg").records
-    keys = _dedupe(keys)
+    # all remaining generators side by side, then the replays one after the other
+    gj = [lambda: ctx.tlc("KeyFetchPool_gen", "KeyFetchPool_gen_quick.cfg", workers=w),
+          lambda: ctx.tlc("KeyFetchPool_gen", "KeyFetchPool_gen_quick3.cfg" if quick else "KeyFetchPool_gen_thorough.cfg", workers=w),
+          # the caller's context: cancelled before / past its deadline / cancelled between two KeyClient completions
+          lambda: ctx.tlc("KeyFetchPool_gen", "KeyFetchPool_gen_ctx.cfg" if quick else "KeyFetchPool_gen_ctx3.cfg", workers=w),
+          # overlapping batches on ONE fetcher with callers that go away: enumerated for one shared server, simulated for
+          # two servers (and three batches in the thorough tier)
+          lambda: ctx.tlc("KeyFetchBatches_gen", "KeyFetchBatches_gen_one.cfg", workers=w),
+          lambda: ctx.tlc("KeyFetchBatches_gen", "KeyFetchBatches_gen_sim.cfg", workers=1, simulate=350 if quick else 2000, depth=60),
+          # one caller, one name: create -> use -> idle -> reap -> create again (a fresh transport), enumerated
+          lambda: ctx.tlc("TransportCache_gen", "TransportCache_gen_seq.cfg", workers=w),
+          lambda: ctx.tlc("TransportCache_gen", "TransportCache_gen_sim.cfg", workers=1, simulate=700 if quick else 2000, depth=80)]
+    if not quick:
+        gj += [lambda: ctx.tlc("KeyFetchBatches_gen", "KeyFetchBatches_gen_sim3.cfg", workers=1, simulate=1000, depth=90),
+               lambda: ctx.tlc("TransportCache_gen", "TransportCache_gen.cfg", workers=w)]
+    g = _par(ctx, gj, width=4)
+    keys = _dedupe(g[0].records + g[1].records)
     _replay(ctx, "c19keys", keys, "key fetch pool")
     # sizes around the worker limit (64): the <= 3-server model cannot show what happens when W < #servers in the code
     sizes = [{"n": n, "pattern": ctx.seed * 2 + p} for n in (1, 63, 64, 65, 70, 130) for p in (0, 1)]
@@ -248,19 +303,29 @@ def run(ctx):
               {"n": 65, "pattern": ctx.seed, "local": 1}]
     _replay(ctx, "c19keysizes", sizes, "key fetch pool sizes")
 
+    kctx = [_ctx_record(r) for r in g[2].records]
+    one = g[3].records
+    n_one = len(one)
     if quick:
-        tr = ctx.tlc("TransportCache_gen", "TransportCache_gen_sim.cfg", workers=1, simulate=1000, depth=80).records
-        tr = _dedupe(tr)
-    else:
-        tr = ctx.tlc("TransportCache_gen", "TransportCache_gen.cfg").records
-        n_tr = len(tr)
-        tr = rng.sample(tr, min(len(tr), 8000))
-        tr += ctx.tlc("TransportCache_gen", "TransportCache_gen_sim.cfg", workers=1, simulate=3000, depth=80).records
-        tr = _dedupe(tr)
-        ctx.notes["transport_schedules"] = "%d of %d enumerated (seeded sample) + simulated" % (min(n_tr, 8000), n_tr)
-    # one caller, one name: create -> use -> idle -> reap -> create again (a fresh transport), enumerated
-    trseq = ctx.tlc("TransportCache_gen", "TransportCache_gen_seq.cfg", workers=w).records
-    tr = _dedupe(tr + (rng.sample(trseq, min(len(trseq), 300)) if quick else trseq))
+        one = rng.sample(one, min(len(one), 250))
+    bat = one + g[4].records + (g[7].records if not quick else [])
+    # pool sizes around 64 and KeyRing.VerifyJSONs x context modes (instant scripted client that honours the context)
+    csz = [{"kind": "sizes", "n": n, "pattern": ctx.seed + p, "mode": m, "cancel_at": c}
+           for n in (1, 8, 64, 65, 130) for p in (0, 1)
+           for m, c in (("before", 0), ("deadline", 0), ("mid", 1), ("mid", max(1, n // 2)), ("mid", n + 5), ("live", 0))]
+    csz += [{"kind": "verify", "n": n, "pattern": ctx.seed, "mode": m, "cancel_at": c}
+            for n in (1, 8, 70) for m, c in (("before", 0), ("deadline", 0), ("mid", 3), ("live", 0))]
+    batches = _dedupe(kctx + bat) + csz
+    _replay(ctx, "c19batches", batches, "key fetching: callers that go away, overlapping batches")
+
+    trseq = g[5].records
+    tr = g[6].records
+    if not quick:
+        full = g[8].records
+        n_tr = len(full)
+        tr = rng.sample(full, min(n_tr, 5000)) + tr
+        ctx.notes["transport_schedules"] = "%d of %d enumerated (seeded sample) + simulated" % (min(n_tr, 5000), n_tr)
+    tr = _dedupe(tr + (rng.sample(trseq, min(len(trseq), 250)) if quick else trseq))
     _replay(ctx, "c19tr", tr, "transport cache")
 
     # ---- 3. stress under the race detector (sampled) -----------------------------------------------------
@@ -293,6 +358,9 @@ def run(ctx):
             [{"case": "dns", "k": k, "rounds": 300 if quick else 5000, "size": 2, "hosts": 4, "dur0": True, "seed": ctx.seed}])
     _stress(ctx, "getTransport / reaper on one transport cache",
             [{"case": "transport", "k": k, "rounds": 200 if quick else 5000, "seed": ctx.seed}])
+    # the reaper as the goroutine of its own that it is: passes at an arbitrary rate next to first uses of fresh names
+    _stress(ctx, "reaper passes next to first uses of fresh TLS names on one transport cache",
+            [{"case": "transportreap", "k": k, "rounds": 300 if quick else 5000, "seed": ctx.seed}])
     # first use of a TLS name by several callers at once: the model's sequential reference (CallersShareTheCachedTransport)
     # on the real cache.  getTransport is one critical section, so no gate can force miss/miss/create/create: sampled.
     _stress(ctx, "concurrent first getTransport of fresh TLS names (all callers must share the cached transport)",
@@ -307,10 +375,15 @@ def run(ctx):
         "designs: every interleaving of 2-3 callers over 2-3 hosts / servers / TLS names, size 1-2, with expiry, reaping and "
         "faults (TLC, exhaustive within the cfg bounds); replay: every behaviour of the 2-caller DNS_gen configs (%d schedules, "
         "enumerated) + seeded TLC simulation of the 3-caller configs; every completion order x fault pattern of the key-fetch "
-        "pool gen configs (enumerated); transport schedules enumerated by TLC and sampled by seed (thorough) or simulated (quick); "
+        "pool gen configs (enumerated), the same with the caller's context cancelled before / past its deadline / cancelled "
+        "between any two completions (enumerated); overlapping batches: every schedule of two batches on one shared server x "
+        "server behaviour x cancellation (%d enumerated, sampled by seed in the quick tier) + seeded TLC simulation for two "
+        "servers / three batches; transport schedules enumerated by TLC and sampled by seed (thorough) or simulated (quick), "
+        "reaper passes also between a failed request and the second getTransport; "
         "distinct = distinct sets of (step -> caller position / outcome) classes per schedule; stress runs are sampled "
-        "schedules under the race detector" % n_exh)
-    ctx.notes["schedules_replayed"] = {"dns": len(dns), "keys": len(keys), "key_pool_sizes": len(sizes), "transport": len(tr)}
+        "schedules under the race detector" % (n_exh, n_one))
+    ctx.notes["schedules_replayed"] = {"dns": len(dns), "keys": len(keys), "key_pool_sizes": len(sizes), "transport": len(tr),
+                                       "keys_contexts_and_overlapping_batches": len(batches)}
 
 
 def replay(ctx, rp):
